@@ -140,6 +140,7 @@ func cmdCheck(args []string) {
 	bySolver := map[string]int{}
 	var samples []any
 	var knownLines []string
+	var knownObs []string
 	var inlinedAll []string
 	for _, r := range results {
 		fentry := map[string]any{"func": r.Func, "kind": r.Kind, "obligations": len(r.Obligations), "time_s": r.Time,
@@ -173,15 +174,19 @@ func cmdCheck(args []string) {
 				}
 				continue
 			}
+			if !o.OK {
+				if kf := isKnown(o.Name); kf != nil {
+					// a recorded known finding: reported, not part of what this check claims as proved
+					knownLines = append(knownLines, fmt.Sprintf("KNOWN-FINDING: property=%s %s (%s)", *prop, kf.What, o.Name))
+					knownObs = append(knownObs, o.Name)
+					continue
+				}
+			}
 			proofObs = append(proofObs, o)
 			if len(samples) < 6 && o.Goal != "" && o.Goal != tTrue && len(o.Goal) < 600 {
 				samples = append(samples, map[string]any{"obligation": o.Name, "negated_goal_checked_unsat": o.Goal, "verdict": o.Verdict, "solver": o.Solver})
 			}
 			if o.OK {
-				continue
-			}
-			if kf := isKnown(o.Name); kf != nil {
-				knownLines = append(knownLines, fmt.Sprintf("KNOWN-FINDING: property=%s %s (%s)", *prop, kf.What, o.Name))
 				continue
 			}
 			violations++
@@ -236,10 +241,10 @@ func cmdCheck(args []string) {
 		"checker_cmd":  fmt.Sprintf("govc check -prop %s -tier %s (per-obligation timeout %d ms)", *prop, *tier, timeout),
 		"trusted_base": tb, "samples": samples,
 		"functions_under_contract": funcs, "covers": len(covers), "covers_sat": coverSat, "covers_undecided": coverUndecided,
-		"solver_time_s": solverTime, "obligations_by_solver": bySolver, "known_findings": knownLines, "slowest_obligations": slowest,
+		"solver_time_s": solverTime, "obligations_by_solver": bySolver, "known_findings": knownLines, "known_finding_obligations_excluded": knownObs, "slowest_obligations": slowest,
 		"integers":    "mathematical Int with exact two's-complement wrap-around at every Go operation and conversion (no overflow assumed away); mode bv64fp uses 64-bit bit-vectors and IEEE-754 binary64",
 		"extraction":  "functions are verified as the go/ssa form of the files `go build -tags verif` compiles; dropped/abstracted: logging calls (no effect), channel ops and select (havocked), go statements (not merged), mutex Lock/Unlock (no-ops, atomicity assumed), termination (partial correctness)",
-		"explanation": "every obligation generated from the current source of the functions under contract was sent to the solvers; discharged == obligations means all were proved unsat",
+		"explanation": "every obligation generated from the current source of the functions under contract was sent to the solvers; discharged == obligations means all were proved unsat. Obligations listed under known_finding_obligations_excluded are the recorded known findings of /verif/known-findings.txt: they are generated and attempted on every run, are expected not to discharge, are reported on a KNOWN-FINDING line, and are not counted in obligations/discharged (what is claimed as proved excludes them)",
 	}
 	extra := loadPropertyNotes(*verif, *prop)
 	for k, v := range extra {
